@@ -127,7 +127,9 @@ func DumpDB(db *kv.DB, ever map[string]bool) (d *Dump, pv any, stack string) {
 		if ferr != nil {
 			d.Errs["<fold>"] = ferr.Error()
 		}
-		d.KeyNum = db.Stat().KeyNum
+		st := db.Stat()
+		d.KeyNum = st.KeyNum
+		st.KeyNum = -4242 // the caller owns the returned struct
 		for k := range ever {
 			if _, ok := d.Vals[k]; ok {
 				continue
